@@ -17,7 +17,7 @@ CLAIMS = {
     },
     "C19": {
         "level": "The C16/C17 kernel harnesses with ALL CBMC pointer/bounds checks selected and hook H3 compiled in: for all contents of the "
-                 "listed shapes and from arbitrary earlier buffer states (matrix smaller/equal/larger than needed, Jaccard buffers shorter/longer) "
+                 "listed shapes and from arbitrary earlier buffer states (matrix one or two short of / equal to / larger than needed, Jaccard buffers shorter/longer and of small capacity) "
                  "every unchecked access of the distance matrix (row AND column below the dimension), the cost vectors and the Jaccard merge is "
                  "in range. Memory safety of unchecked indexing is exactly what a bounded model checker with pointer checks decides.",
         "note": STD_NOTE + " NOT covered: the trigram counters (counts.get_unchecked_mut in TrigramIndex::prepare is not executable within memory).",
@@ -39,12 +39,13 @@ CLAIMS = {
     "C03": {
         "level": "Word level. Solver-decided on the REAL word_match: for every title word of 1-3 letters, every prefix length, finished/unfinished, "
                  "the listed stem lengths, and ALL characters/classes/POS flags, the prefix query matches with exactly the typed span and zero typos; "
-                 "and on the real collect_grams: a prefix shares a gram with its word (n <= 5). The chain to 'the record is among the hits' is glued.",
+                 "on the real length_check / jaccard_check alone (the matcher's two pre-filters) a prefix is accepted for words up to 6 letters; and on the "
+                 "real collect_grams a prefix shares a gram with its word (n <= 5). The chain to 'the record is among the hits' is glued.",
         "note": STD_NOTE + " Matcher shapes above 3x3 exceed 40 GB; index posting lists and the tokeniser are not executed.",
     },
     "C13": {
         "level": "Word level. Solver-decided on the REAL word_match: a finished exact copy of a word of 1-3 letters matches in full with zero typos for "
-                 "all characters/classes/flags and the listed stems. The multi-word assignment in text_match (either order) is NOT decided.",
+                 "all characters/classes/flags and the listed stems; the two pre-filters accept an exact copy up to 6 letters. The multi-word assignment in text_match (either order) is NOT decided.",
         "note": STD_NOTE + " Only the per-word half of the property is claimed.",
     },
     "C05": {
@@ -79,9 +80,9 @@ CLAIMS = {
     },
     "C17": {
         "level": "Bounded model checking of the real Jaccard::<char>::similarity / rel_dist / simple_similarity: for every listed pair of "
-                 "lengths (up to 3x3 quick, 5x5 thorough) the value equals |A∩B|/|A∪B| for ALL characters, is symmetric, in [0,1], and "
+                 "lengths (up to 3x3 quick, 3x4 and 5x2 thorough) the value equals |A∩B|/|A∪B| for ALL characters, is symmetric, in [0,1], and "
                  "is independent of ARBITRARY earlier contents of the two scratch buffers (shorter, equal, longer).",
-        "note": STD_NOTE + " Sequences longer than 5 characters (in particular beyond the initial capacity 20) are outside the bound.",
+        "note": STD_NOTE + " Sequences longer than 3x4 / 5x2 characters (in particular beyond the initial capacity 20) are outside the bound.",
     },
 }
 
